@@ -55,7 +55,7 @@ def gen(ctx, name, n, dup=0, spur=0, cancel=0, ptimeout=False, barrier=True, pon
     return out
 
 
-def scenario(fam, k, n, steps, mode, rnd, hold=False, ping_ms=None, delays=False, queued=False):
+def scenario(fam, k, n, steps, mode, rnd, hold=False, ping_ms=None, delays=False, queued=False, id_start=None):
     """wrap one environment script into a harness scenario; request kinds are assigned round-robin from a seeded offset"""
     off = rnd.randrange(len(KINDS))
     stride = rnd.choice([1, 2, 3])
@@ -78,6 +78,8 @@ def scenario(fam, k, n, steps, mode, rnd, hold=False, ping_ms=None, delays=False
             if s["a"] in ("ans", "dup", "spur", "cancel") and rnd.random() < 0.3:
                 s["ms"] = rnd.choice([1, 2, 5])
     p = {"n": n, "kinds": kinds, "mode": mode, "holdPong": hold, "wdMs": WD_MS}
+    if id_start is not None:
+        p["idStart"] = id_start
     if queued:
         # network burst: every maximal run of broker responses reaches the client back to back
         p["queued"] = True
@@ -155,6 +157,9 @@ def run():
         sims = gen(ctx, "sim%d" % n, n, dup=1, spur=1, cancel=2, barrier=True, simulate=60 if q else 400)
         add("sim%d" % n, n, sims, ["burst"], ping_ms=[2, 20000], delays=True)
         add("sim%ds" % n, n, sims[: len(sims) // 2], ["sync"])
+    # the request id counter crosses the uint32 boundary while the requests are outstanding (a connection that has issued 2^31 requests)
+    sims = gen(ctx, "simwrap8", 8, dup=1, spur=0, cancel=1, barrier=True, simulate=40 if q else 300)
+    add("wrap8", 8, sims, ["sync", "burst"], id_start=4294967288)
     sims = gen(ctx, "simnb8", 8, dup=1, spur=1, cancel=2, barrier=False, simulate=60 if q else 400)
     add("simnb8", 8, sims, ["burst"], ping_ms=[2, 20000], delays=True)
 
